@@ -33,28 +33,29 @@ type missingAnchor struct {
 }
 
 type Gen struct {
-	missing      []missingAnchor
-	prog         *ssa.Program
-	pkgs         []*packages.Package
-	byPath       map[string]*packages.Package
-	ssaPkgs      map[string]*ssa.Package
-	contracts    map[string]*FuncContract // by key
-	allFC        []*FuncContract
-	ghosts       map[string]*GhostFunc // pkgPath + "." + name
-	lemmas       []*Lemma
-	sigs         map[*FuncContract]*sigInfo
-	fnOf         map[*FuncContract]*ssa.Function
-	fnIDs        map[string]int
-	globIDs      map[string]int
-	noEffectPat  []string
-	inlinePat    []string
-	int64Ranges  bool
-	repoDir      string
-	loadErrs     []string
-	files        []*ContractFile
-	strUF        bool
-	ghostGlobals map[string]*TypeExpr // pkgPath.name
-	immutables   [][3]string          // pkgpath, type, field: struct fields never written after construction (assumed)
+	smallHelperMemo map[*ssa.Function]bool
+	missing         []missingAnchor
+	prog            *ssa.Program
+	pkgs            []*packages.Package
+	byPath          map[string]*packages.Package
+	ssaPkgs         map[string]*ssa.Package
+	contracts       map[string]*FuncContract // by key
+	allFC           []*FuncContract
+	ghosts          map[string]*GhostFunc // pkgPath + "." + name
+	lemmas          []*Lemma
+	sigs            map[*FuncContract]*sigInfo
+	fnOf            map[*FuncContract]*ssa.Function
+	fnIDs           map[string]int
+	globIDs         map[string]int
+	noEffectPat     []string
+	inlinePat       []string
+	int64Ranges     bool
+	repoDir         string
+	loadErrs        []string
+	files           []*ContractFile
+	strUF           bool
+	ghostGlobals    map[string]*TypeExpr // pkgPath.name
+	immutables      [][3]string          // pkgpath, type, field: struct fields never written after construction (assumed)
 }
 
 func loadGen(repoDir string, patterns []string, extDir string) (*Gen, error) {
@@ -638,7 +639,49 @@ func matchAny(pats []string, names []string) bool {
 func (g *Gen) noEffect(names []string) bool { return matchAny(g.noEffectPat, names) }
 
 func (g *Gen) autoInline(f *ssa.Function, names []string) bool {
-	return matchAny(g.inlinePat, names)
+	if matchAny(g.inlinePat, names) {
+		return true
+	}
+	return g.smallHelper(f)
+}
+
+// smallHelper: a function of the repository itself that carries no contract, is small, has no loop and starts no
+// goroutine is executed symbolically at its call sites instead of being abstracted (so that extracting a few lines into
+// a helper, or calling a small existing helper, does not make the caller's proof fail for lack of a contract).
+func (g *Gen) smallHelper(f *ssa.Function) bool {
+	if f == nil || f.Pkg == nil || len(f.Blocks) == 0 || !strings.HasPrefix(f.Pkg.Pkg.Path(), "github.com/AliceO2Group/Control") {
+		return false
+	}
+	if g.contractFor(f) != nil || f.Signature.Recv() != nil && f.Signature.TypeParams() != nil {
+		return false
+	}
+	if v, ok := g.smallHelperMemo[f]; ok {
+		return v
+	}
+	ok := true
+	n := 0
+	for _, b := range f.Blocks {
+		for _, s := range b.Succs {
+			if s.Dominates(b) {
+				ok = false // loop
+			}
+		}
+		for _, ins := range b.Instrs {
+			n++
+			switch ins.(type) {
+			case *ssa.Go, *ssa.Defer, *ssa.Select, *ssa.Panic, *ssa.RunDefers:
+				ok = false
+			}
+		}
+	}
+	if n > 120 {
+		ok = false
+	}
+	if g.smallHelperMemo == nil {
+		g.smallHelperMemo = map[*ssa.Function]bool{}
+	}
+	g.smallHelperMemo[f] = ok
+	return ok
 }
 
 func (g *Gen) recvNoHavoc(fr *Frame) bool {
